@@ -39,6 +39,9 @@ func (bt *btree) rangeFrac(org, end string) (result float64) {
 		if result < 0 {
 			result = 0
 		}
+		if result > 1 {
+			result = 1
+		}
 	}()
 	_ = t && trace("=== rangeFrac", org, end)
 	nkeys := bt.count
